@@ -3,7 +3,7 @@
 # programs kept alive in between, then from several threads at once — also under ThreadSanitizer.  Every serialised
 # result (program, tables, full message texts, requests, final values) must equal the reference byte for byte; the
 # references themselves are compared with the model (which is a function of the input).
-import os, subprocess, sys, tempfile, shutil
+import os, re, subprocess, sys, tempfile, shutil
 sys.path.insert(0, os.path.dirname(os.path.abspath(__file__)))
 import vlib, gen_prog
 from explore_total import neighbours
@@ -37,6 +37,23 @@ def explore(ctx, res, replay=None):
                 'x0 := 2147483647', 'x0 := 9223372036854775807', 'include "nofile" x := 1', 'x0 := 1; x1 := 2; x2 := x1 + 3'):
         inputs.append(({'m': txt}, 'm'))
     inputs.append(({}, 'absent'))
+    # near-duplicates: inputs that agree in everything a cache key could look at (file names, definition sites, patterns,
+    # program names) and differ in one detail; a result remembered from one must not be served for the other
+    for c in (1, 2, 3):
+        inputs.append(({'main.theo': 'DEFINE STEP <ID> AS $0 := $0 + %d END DEFINE\nx0 := 5; STEP x0; STEP x0' % c}, 'main.theo'))
+        inputs.append(({'main.theo': 'PROGRAM f IN a DO x0 := a + %d END\nx1 := RUN f WITH 1 END' % c}, 'main.theo'))
+        inputs.append(({'main.theo': 'include "lib.theo"\nx1 := RUN f WITH 4 END; INC x1', 'lib.theo': 'PROGRAM f IN a DO x0 := a - %d END\nDEFINE INC <ID> AS $0 := $0 + %d END DEFINE' % (c, c)}, 'main.theo'))
+    for pr in (1, 9):
+        inputs.append(({'main.theo': 'DEFINE PRIO %d A <ID> AS $0 := 1 END DEFINE\nDEFINE PRIO 5 A <ID> AS $0 := 2 END DEFINE\nA x' % pr}, 'main.theo'))
+    for k in range(0, len(inputs), 4):
+        files, main = inputs[k]
+        txt = files.get(main)
+        if isinstance(txt, str):
+            m = re.search(r'\b(\d{1,4})\b', txt)
+            if m:
+                f2 = dict(files)
+                f2[main] = txt[:m.start()] + str(int(m.group(1)) + 1) + txt[m.end():]
+                inputs.append((f2, main))
     inputs.append(({'m': 'DEFINE <P> AS $0 END DEFINE x := 1'}, 'm'))
     scratch = tempfile.mkdtemp(prefix='theo-shared.', dir='/var/tmp')
     try:
